@@ -47,6 +47,14 @@ static uint32_t helper1(uint32_t a, uint32_t b) {
   g_log.push_back({1, a, b});
   return (3 * a + b + 7) & 0xFFFF;
 }
+static uint32_t helper3(uint64_t a, uint32_t b) {
+  g_log.push_back({3, uint32_t(a >> 32), uint32_t(a), b});
+  return uint32_t((a >> 32) + 3 * (a & 0xFFFFFFFFu) + b + 11) & 0xFFFF;
+}
+static uint64_t helper4(uint32_t a) {
+  g_log.push_back({4, a});
+  return (uint64_t((5 * a + 1) & 0xFFFF) << 32) | ((a + 9) & 0xFFFF);
+}
 static uint32_t helper2(uint32_t a1, uint32_t a2, uint32_t a3, uint32_t a4, uint32_t a5, uint32_t a6, uint32_t a7, uint32_t a8) {
   g_log.push_back({2, a1, a2, a3, a4, a5, a6, a7, a8});
   return (a1 + 2 * a2 + 3 * a3 + 4 * a4 + 5 * a5 + 6 * a6 + 7 * a7 + 8 * a8 + 1) & 0xFFFF;
@@ -78,15 +86,26 @@ static unsigned prog_max_qreg(const vj::Value& prog) {
   for (auto& I : prog.arr) {
     const std::string& op = I[0].s();
     auto upd = [&](size_t k) { if (I[k].i() > mx) mx = I[k].i(); };
-    if (op == "qset" || op == "qsx" || op == "qset16" || op == "qset8") upd(1);
-    else if (op == "qhi" || op == "qlo" || op == "qop0") upd(2);
+    if (op == "qset" || op == "qsx" || op == "qset16" || op == "qset8" || op == "call4") upd(1);
+    else if (op == "qhi" || op == "qlo" || op == "qop0" || op == "call3") upd(2);
+    else if (op == "qsh") upd(3);
     else if (op == "qmov" || op == "qxor" || op == "qmov32" || op == "qinitall") { upd(1); upd(2); }
     else if (op == "qfold") { upd(2); upd(3); }
   }
   return unsigned(mx);
 }
 
+// TypeId of every virtual register is a dimension: a register of the language has a WIDTH only; which TypeId of that
+// width the Compiler is given is chosen from these tables by (program's type salt + register index).
+static const TypeId kTypes32[] = { TypeId::kUInt32, TypeId::kInt32 };
+static const TypeId kTypes64[] = { TypeId::kInt64, TypeId::kUInt64, TypeId::kInt64, TypeId::kIntPtr, TypeId::kInt64, TypeId::kUIntPtr, TypeId::kInt64 };
+static const TypeId kTypesV128[] = { TypeId::kInt32x4, TypeId::kFloat32x4, TypeId::kFloat64x2, TypeId::kInt8x16, TypeId::kUInt8x16, TypeId::kInt16x8,
+                                     TypeId::kUInt16x8, TypeId::kUInt32x4, TypeId::kInt64x2, TypeId::kUInt64x2 };
+template<size_t N> static TypeId pick_type(const TypeId (&tab)[N], unsigned salt, unsigned i) { return tab[(salt * 7u + i) % N]; }
+
 struct Prog {
+  unsigned salt = 0;      // meta[5] of the program record
+  void init_salt() { if (rec && (*rec)["meta"].kind == vj::Value::Arr && (*rec)["meta"].size() > 5) salt = unsigned((*rec)["meta"][5].i()); }
   long long id = 0;
   const vj::Value* rec = nullptr;
   const vj::Value* prog = nullptr;
@@ -111,7 +130,9 @@ static unsigned prog_max_reg(const vj::Value& prog) {
     else if (op == "vget" || op == "vfold") upd(1);
     else if (op == "qset") { upd(2); upd(3); }
     else if (op == "qhi" || op == "qlo" || op == "qfold") upd(1);
-    else if (op == "qsx" || op == "qset16" || op == "qset8") upd(2);
+    else if (op == "qsh") upd(2);
+    else if (op == "call3") { upd(1); upd(3); }
+    else if (op == "qsx" || op == "qset16" || op == "qset8" || op == "call4") upd(2);
     else if (op == "qmov" || op == "qxor" || op == "qmov32" || op == "qop0" || op == "qinitall") {}
     else for (size_t k = 1; k < I.size(); k++) upd(k);
   }
@@ -143,13 +164,13 @@ struct JTabX { Label table; std::vector<Label> targets; GpT base; std::string fo
 static FuncNode* build_x86(x86::Compiler& cc, const Prog& p) {
   const vj::Value& prog = *p.prog;
   std::vector<x86::Gp> v(p.nv + 1);
-  for (unsigned i = 1; i <= p.nv; i++) v[i] = cc.new_gp32("v%u", i);
+  for (unsigned i = 1; i <= p.nv; i++) v[i] = cc.new_gp(pick_type(kTypes32, p.salt, i), "v%u", i);
   unsigned nx = prog_max_xreg(prog);
   std::vector<x86::Vec> xv(nx + 1);
-  for (unsigned i = 1; i <= nx; i++) xv[i] = cc.new_xmm("x%u", i);
+  for (unsigned i = 1; i <= nx; i++) xv[i] = cc.new_vec(pick_type(kTypesV128, p.salt, i), "x%u", i);
   unsigned nq = prog_max_qreg(prog);
   std::vector<x86::Gp> qv(nq + 1);
-  for (unsigned i = 1; i <= nq; i++) qv[i] = cc.new_gp64("q%u", i);
+  for (unsigned i = 1; i <= nq; i++) qv[i] = cc.new_gp(pick_type(kTypes64, p.salt, i), "q%u", i);
   auto QR = [&](const vj::Value& I, size_t k) -> x86::Gp& { return qv[size_t(I[k].i())]; };
   x86::Gp outp = cc.new_gp_ptr("outp");
   x86::Mem stk = cc.new_stack(NS * 4, 4, "stk");
@@ -329,6 +350,23 @@ static FuncNode* build_x86(x86::Compiler& cc, const Prog& p) {
     }
     else if (op == "qset16") cc.mov(QR(I, 1).r16(), R(2).r16());
     else if (op == "qset8") cc.mov(QR(I, 1).r8(), R(2).r8());
+    else if (op == "qsh") {
+      const std::string& o = I[1].s();
+      if (o == "shl") { cc.shl(R(2), QR(I, 3).r8()); mask(R(2)); } else if (o == "shr") cc.shr(R(2), QR(I, 3).r8()); else cc.sar(R(2), QR(I, 3).r8());
+    }
+    else if (op == "call3") {
+      InvokeNode* inv;
+      cc.invoke(Out(inv), imm((void*)helper3), FuncSignature::build<uint32_t, uint64_t, uint32_t>());
+      inv->set_arg(0, QR(I, 2));
+      inv->set_arg(1, R(3));
+      inv->set_ret(0, R(1));
+    }
+    else if (op == "call4") {
+      InvokeNode* inv;
+      cc.invoke(Out(inv), imm((void*)helper4), FuncSignature::build<uint64_t, uint32_t>());
+      inv->set_arg(0, R(2));
+      inv->set_ret(0, QR(I, 1));
+    }
     else if (op == "qfold") {
       x86::Gp t = cc.new_gp64("qf");
       for (long long r = I[2].i(); r <= I[3].i(); r++) {
@@ -438,7 +476,7 @@ static int cmd_run(const char* in_path, const char* out_path) {
     p.id = rec["id"].i();
     p.rec = &rec;
     p.prog = &rec["prog"];
-    p.nv = prog_max_reg(*p.prog);
+    p.nv = prog_max_reg(*p.prog); p.init_salt();
     int fds[2];
     if (pipe(fds) != 0) { perror("pipe"); return 3; }
     fflush(out);
@@ -657,7 +695,8 @@ static void gen_x64(x86::Compiler& cc, vj::Rng& rng) {
   std::vector<x86::Gp> g8, g16, g32, g64;
   std::vector<x86::Vec> xs;
   // 1 pointer + 1..13 integer arguments: beyond the register arguments they arrive on the stack
-  unsigned nargs = 1 + rng.below(13);
+  bool ymode = rng.chance(1, 3);            // 256-bit registers + Win64 calls (needs a frame without stack arguments)
+  unsigned nargs = ymode ? 1 + unsigned(rng.below(4)) : 1 + unsigned(rng.below(13));
   FuncSignature sig(CallConvId::kCDecl);
   sig.set_ret_t<void>();
   sig.add_arg_t<void*>();
@@ -678,6 +717,20 @@ static void gen_x64(x86::Compiler& cc, vj::Rng& rng) {
   }
   for (unsigned i = 0; i < n64; i++) { g64.push_back(cc.new_gp64("q%u", i)); cc.mov(g64.back(), int(i + 5000)); }
   for (unsigned i = 0; i < nx; i++) { xs.push_back(cc.new_xmm("x%u", i)); if (rng.chance(1, 2)) cc.movd(xs.back(), g32[rng.below(n32)]); else cc.pxor(xs.back(), xs.back()); }
+  // wide vector registers kept across two Win64 calls: the first call spills them (they are dirty), the reads reload them
+  // (clean), the second call must again treat ymm6..15 as clobbered in their upper halves
+  std::vector<x86::Vec> ys;
+  if (ymode) {
+    static const TypeId yt[] = { TypeId::kInt32x8, TypeId::kFloat32x8, TypeId::kFloat64x4, TypeId::kInt8x32, TypeId::kUInt16x16, TypeId::kInt64x4 };
+    unsigned ny = 8 + unsigned(rng.below(8));
+    for (unsigned i = 0; i < ny; i++) { ys.push_back(cc.new_vec(yt[rng.below(6)], "y%u", i)); cc.vmovups(ys.back(), x86::ptr(p, int(32 * (i % 4)))); }
+    for (int round = 0; round < 2; round++) {
+      InvokeNode* inv;
+      cc.invoke(Out(inv), imm((void*)helper1), FuncSignature::build<uint32_t, uint32_t, uint32_t>(CallConvId::kX64Windows));
+      inv->set_arg(0, g32[rng.below(n32)]); inv->set_arg(1, g32[rng.below(n32)]); inv->set_ret(0, g32[rng.below(n32)]);
+      for (auto& y : ys) cc.vmovups(x86::ptr(p, int(32 * rng.below(4))), y);
+    }
+  }
   x86::Gp cnt = cc.new_gp32("cnt");
   Label L1 = cc.new_label(), L2 = cc.new_label(), Lloop = cc.new_label();
   auto G32 = [&]() -> x86::Gp& { return g32[rng.below(n32)]; };
@@ -736,6 +789,7 @@ static void gen_x64(x86::Compiler& cc, vj::Rng& rng) {
   for (auto& r : g32) { cc.mov(x86::dword_ptr(p, off), r); off += 4; }
   for (auto& r : g64) { cc.mov(x86::qword_ptr(p, off), r); off += 8; }
   for (auto& r : xs) { cc.movups(x86::ptr(p, off), r); off += 16; }
+  for (auto& r : ys) { cc.vmovups(x86::ptr(p, off), r); off += 32; }
   cc.ret();
   cc.end_func();
 }
@@ -765,6 +819,15 @@ static void gen_a64(a64::Compiler& cc, vj::Rng& rng) {
   for (unsigned i = 0; i < nq; i++) { q.push_back(cc.new_vec_q("q%u", i)); cc.ldr(q.back(), a64::ptr(p, int(16 * (i % 8)))); }
   for (unsigned i = 0; i < nd; i++) { d.push_back(cc.new_vec_d("d%u", i)); cc.ldr(d.back(), a64::ptr(p, int(8 * i))); }
   for (unsigned i = 0; i < ns; i++) { sv.push_back(cc.new_vec_s("s%u", i)); cc.ldr(sv.back(), a64::ptr(p, int(4 * i))); }
+  // 128-bit registers kept across two calls (AAPCS64 preserves only the low 64 bits of v8..v15)
+  if (rng.chance(1, 2)) {
+    for (int round = 0; round < 2; round++) {
+      InvokeNode* inv;
+      cc.invoke(Out(inv), imm((void*)helper1), FuncSignature::build<uint32_t, uint32_t, uint32_t>());
+      inv->set_arg(0, w[rng.below(nw)]); inv->set_arg(1, w[rng.below(nw)]); inv->set_ret(0, w[rng.below(nw)]);
+      for (auto& r : q) cc.str(r, a64::ptr(p, int(16 * rng.below(8))));
+    }
+  }
   a64::Gp cnt = cc.new_gp32("cnt");
   Label L1 = cc.new_label(), L2 = cc.new_label(), Lloop = cc.new_label();
   auto W = [&]() -> a64::Gp& { return w[rng.below(nw)]; };
@@ -915,7 +978,7 @@ static int cmd_asm(const char* in_path, long long id) {
   auto recs = vj::read_ndjson(in_path);
   for (auto& rec : recs) {
     if (rec["id"].i() != id) continue;
-    Prog p; p.id = id; p.rec = &rec; p.prog = &rec["prog"]; p.nv = prog_max_reg(*p.prog);
+    Prog p; p.id = id; p.rec = &rec; p.prog = &rec["prog"]; p.nv = prog_max_reg(*p.prog); p.init_salt();
     CodeHolder code;
     code.init(Environment::host());
     StringLogger lg;
@@ -936,7 +999,7 @@ static int cmd_record(const char* arch_s, const char* in_path, const char* out_p
   FILE* out = fopen(out_path, "w");
   if (!out) { perror(out_path); return 3; }
   for (auto& rec : recs) {
-    Prog p; p.id = rec["id"].i(); p.rec = &rec; p.prog = &rec["prog"]; p.nv = prog_max_reg(*p.prog);
+    Prog p; p.id = rec["id"].i(); p.rec = &rec; p.prog = &rec["prog"]; p.nv = prog_max_reg(*p.prog); p.init_salt();
     CodeHolder code;
     code.init(Environment(arch));
     ErrH eh;
@@ -986,13 +1049,13 @@ struct JTabA { Label table; std::vector<Label> targets; };
 static FuncNode* build_a64(a64::Compiler& cc, const Prog& p) {
   const vj::Value& prog = *p.prog;
   std::vector<a64::Gp> v(p.nv + 1);
-  for (unsigned i = 1; i <= p.nv; i++) v[i] = cc.new_gp32("v%u", i);
+  for (unsigned i = 1; i <= p.nv; i++) v[i] = cc.new_gp(pick_type(kTypes32, p.salt, i), "v%u", i);
   unsigned nx = prog_max_xreg(prog);
   std::vector<a64::Vec> xv(nx + 1);
-  for (unsigned i = 1; i <= nx; i++) xv[i] = cc.new_vec_q("x%u", i);
+  for (unsigned i = 1; i <= nx; i++) xv[i] = cc.new_vec(pick_type(kTypesV128, p.salt, i), "x%u", i);
   unsigned nq = prog_max_qreg(prog);
   std::vector<a64::Gp> qv(nq + 1);
-  for (unsigned i = 1; i <= nq; i++) qv[i] = cc.new_gp64("q%u", i);
+  for (unsigned i = 1; i <= nq; i++) qv[i] = cc.new_gp(pick_type(kTypes64, p.salt, i), "q%u", i);
   auto QR = [&](const vj::Value& I, size_t k) -> a64::Gp& { return qv[size_t(I[k].i())]; };
   a64::Gp outp = cc.new_gp_ptr("outp");
   a64::Mem stk = cc.new_stack(NS * 4, 4, "stk");
@@ -1170,6 +1233,23 @@ static FuncNode* build_a64(a64::Compiler& cc, const Prog& p) {
     }
     else if (op == "qset16") cc.bfi(QR(I, 1), R(2).x(), 0, 16);
     else if (op == "qset8") cc.bfi(QR(I, 1), R(2).x(), 0, 8);
+    else if (op == "qsh") {
+      const std::string& o = I[1].s();
+      if (o == "shl") { cc.lsl(R(2), R(2), QR(I, 3).w()); mask(R(2)); } else if (o == "shr") cc.lsr(R(2), R(2), QR(I, 3).w()); else cc.asr(R(2), R(2), QR(I, 3).w());
+    }
+    else if (op == "call3") {
+      InvokeNode* inv;
+      cc.invoke(Out(inv), imm((void*)helper3), FuncSignature::build<uint32_t, uint64_t, uint32_t>());
+      inv->set_arg(0, QR(I, 2));
+      inv->set_arg(1, R(3));
+      inv->set_ret(0, R(1));
+    }
+    else if (op == "call4") {
+      InvokeNode* inv;
+      cc.invoke(Out(inv), imm((void*)helper4), FuncSignature::build<uint64_t, uint32_t>());
+      inv->set_arg(0, R(2));
+      inv->set_ret(0, QR(I, 1));
+    }
     else if (op == "qfold") {
       a64::Gp t = cc.new_gp64("qf");
       a64::Gp k31 = cc.new_gp32("k31");
